@@ -441,7 +441,7 @@ Example ex_rbtree_copy_unwind :
 Proof. exact rbtree_copy_unwind_example. Qed.
 
 (* ---- str_table.c ---- *)
-(* every sequence of get_index / get_string calls, every oracle, the code as it is (fx = false) and
+(* every sequence of get_index / get_string calls, every oracle, the code BEFORE the repairs C13N13/C13N14 (fx = false; /repo now is fx = true) and
    repaired (fx = true): no crash, the weak invariant and the ownership are kept, nothing is freed
    twice, and the answers are those of the abstract machine in which a failed call is a no-op
    (no lost string, no phantom string, no changed index); with the repair the exact counters
@@ -488,7 +488,7 @@ Theorem str_table_cleanup_frees_all : forall b t h F,
 Proof. exact str_table_cleanup_a_spec. Qed.
 Print Assumptions str_table_cleanup_frees_all.
 
-(* the code as it is: a failed get_index leaves ht->entries one too high (Util's invariant broken),
+(* the code before repair C13N13 (cd1928f): a failed get_index left ht->entries one too high (Util's invariant broken),
    and a table holding one string gets re-hashed into the next row; repaired: it does not *)
 Theorem str_table_entries_drift_refuted_thm :
   exists st ans, run_from false (fail_at 3) [OGet [97]] = Some (st, ans) /\
@@ -550,7 +550,10 @@ Example ex_str_table_start :
             end.
 Proof. exact str_table_run_example. Qed.
 
-(* ---- one level up: the xattr writer's recording path over the containers ---- *)
+(* ---- one level up: the xattr writer's recording path over the containers: create / begin / add_kv / destroy.
+   NOT modelled: sqfs_xattr_writer_end (the rbtree lookup + insert of the block descriptor - the part of the recording path
+   that allocates a tree node - and the qsort) and the two SQFS_ERROR_OVERFLOW returns; "a failing call returns
+   SQFS_ERROR_ALLOC" is therefore a statement about the modelled calls only (independent audit 4, item 11) ---- *)
 From SqfsV Require Import UtilAlloc.XattrAlloc UtilAlloc.XattrAllocProofs.
 
 (* sqfs_xattr_writer_add_kv under ANY oracle: no crash; the invariants of both string tables and of
@@ -608,3 +611,62 @@ Example ex_xattr_writer_residue :
   | _ => False
   end.
 Proof. vm_compute. repeat split. Qed.
+
+(* ---- non-vacuity (independent audit 4): ALL hypotheses of hash_table_alloc_failstop and of rbtree_alloc_failstop, jointly, on
+   non-empty containers over a heap whose next allocation fails.  (Proofs inline: they USE the theorems of this file.) ---- *)
+From Coq Require Import List NArith ZArith Bool Lia.
+From SqfsV Require Import Util.GenUtil Util.FastRem Util.HashModel Util.HashBase Util.HashRows Util.HashInv
+     UtilAlloc.AllocBase UtilAlloc.HashAlloc UtilAlloc.HashAllocInv UtilAlloc.HashAllocProofs.
+From Coq Require Import List NArith ZArith Bool Lia.
+From SqfsV Require Import Util.GenUtil Util.RbModel Util.RbOrder Util.RbTheorems Util.RbExamples
+     UtilAlloc.AllocBase UtilAlloc.RbAlloc UtilAlloc.RbAllocProofs.
+(* all hypotheses of hash_table_alloc_failstop / hash_table_insert_contract_any_oracle, jointly, on a table that
+   holds an entry, over a heap whose next allocation fails: create (two allocations succeed), one insert *)
+Example ex_hash_table_alloc_failstop_hyps :
+  exists (t : ahtab N N) (h : heap),
+    wfa N N (ah_core t) /\ wfs N N (ah_core t) /\ (7 < two32) /\ ht_entries N N (ah_core t) < ht_safe_limit /\
+    ht_entries N N (ah_core t) = 1 /\
+    owned_by h (ah_owns N N t) (fun _ => False) /\ h_orc h = [false].
+Proof.
+  pose (h0 := heap0 [true; true; false]).
+  assert (O0 : owned_by h0 [] (fun _ => False)).
+  { split; [apply heap0_ok|]. split; [constructor|]. split; [intros id H; destruct H|]. intro id. vm_compute. tauto. }
+  pose proof (hash_table_create_alloc_failstop N N h0 (fun _ => False) O0) as C.
+  destruct (ht_create_a N N h0) as [[t0|] h1] eqn:E0.
+  2:{ vm_compute in E0. discriminate. }
+  destruct C as (_ & O1 & W1 & _ & _ & _).
+  assert (L : ht_entries N N (ah_core t0) < ht_safe_limit).
+  { vm_compute in E0. inversion E0; subst. vm_compute. reflexivity. }
+  destruct (hash_table_alloc_failstop N N N.eqb t0 5 1 100 h1 (fun _ => False) (proj1 W1) (eq_refl : 5 < two32) L O1)
+    as (t1 & r & h2 & E1 & Wa & O2 & _ & Ws & _ & _).
+  specialize (Ws W1).
+  vm_compute in E0. inversion E0; subst t0 h1. vm_compute in E1. inversion E1; subst t1 r h2.
+  eexists; eexists. split; [exact Wa|]. split; [exact Ws|]. split; [reflexivity|]. split; [reflexivity|].
+  split; [reflexivity|]. split; [exact O2|reflexivity].
+Qed.
+Print Assumptions ex_hash_table_alloc_failstop_hyps.
+(* all hypotheses of rbtree_alloc_failstop, jointly, on a NON-EMPTY tree and a heap whose next two allocations
+   succeed and whose third fails: the tree after one successful insert into the directory reader's tree *)
+Example ex_rbtree_alloc_failstop_hyps :
+  exists (t : rbtree) (h : heap) (key value : list N),
+    (forall a b, (cmp_u32 a b < 0 <-> 0 < cmp_u32 b a)%Z) /\
+    (forall a b c, (cmp_u32 a b <= 0 -> cmp_u32 b c <= 0 -> cmp_u32 a c <= 0)%Z) /\
+    rbtree_inv cmp_u32 t /\ rb_root t <> Leaf /\
+    RbModel.lenN key = rb_key_size t /\ RbModel.lenN value = rb_value_size t /\
+    owned_by h (tids (rb_root t) ++ []) (fun _ => False) /\ h_orc h = [true; false].
+Proof.
+  destruct (conj cmp_u32_antisym cmp_u32_trans) as [A T].
+  assert (I0 : rbtree_inv cmp_u32 ex_tree0).
+  { apply (rbtree_init_inv cmp_u32 4 8). vm_compute. reflexivity. }
+  pose (h0 := heap0 [true; true; false]).
+  assert (O0 : owned_by h0 (tids (rb_root ex_tree0) ++ []) (fun _ => False)).
+  { split; [apply heap0_ok|]. split; [vm_compute; constructor|]. split; [intros id H; vm_compute in H; tauto|].
+    intro id. vm_compute. tauto. }
+  destruct (rbtree_alloc_failstop cmp_u32 A T ex_tree0 (le4 5) [1;2;3;4;5;6;7;8] h0 [] (fun _ => False) I0
+              eq_refl eq_refl O0) as (z & t1 & h1 & E & _ & O1 & I1 & _ & _).
+  vm_compute in E. inversion E; subst z t1 h1.
+  eexists; eexists; exists (le4 7), [2;2;2;2;2;2;2;2].
+  split; [exact A|]. split; [exact T|]. split; [exact I1|]. split; [discriminate|].
+  split; [reflexivity|]. split; [reflexivity|]. split; [exact O1|reflexivity].
+Qed.
+Print Assumptions ex_rbtree_alloc_failstop_hyps.
